@@ -25,14 +25,14 @@ from ..runner import CaseResult, digest
 from .. import sexp
 
 ID = "C04"
-RULE = ("domains: strips (10 calls), numeric (7 calls), cond (26 calls); all plans over the calls of a domain up to length "
-        "L (quick: 4,4,2; thorough: 5,5,3), executed in 4 modes + 3 plan-file layouts (as is, UPPER CASE with extra blanks, "
+RULE = ("domains: strips (10 calls), numeric (12 calls), cond (26 calls); all plans over the calls of a domain up to length "
+        "L (quick: 4,3,2; thorough: 5,4,3), executed in 4 modes + 3 plan-file layouts (as is, UPPER CASE with extra blanks, "
         "no final newline); one case = one (domain, first two steps) prefix family. states = distinct reference states "
         "reached; transitions = steps compared. non-trivial = a plan that mixes applicable and inapplicable steps")
 ASSUMPTIONS = ["with allow_invalid_actions only count, chaining and the steps applicable in their actual pre-state are judged",
                "steps whose simultaneous effects are inconsistent are outside the quantifier (not judged)"]
 CASE_TIMEOUT = 300
-LEN = {"quick": {"strips": 4, "numeric": 4, "cond": 2}, "thorough": {"strips": 5, "numeric": 5, "cond": 3}}
+LEN = {"quick": {"strips": 4, "numeric": 3, "cond": 2}, "thorough": {"strips": 5, "numeric": 4, "cond": 3}}
 
 
 def cases(tier):
